@@ -117,6 +117,10 @@ func (r *R) fn(rule, rel, recv, name string) *ssa.Function {
 		r.c.Stuck(rule, "anchor:"+fnKey(rel, recv, name), "", "anchor function no longer resolves (renamed, moved or deleted); the rule cannot be evaluated")
 		return nil
 	}
+	if core.SignatureChanged(f) {
+		r.c.Stuck(rule, "anchor-signature:"+fnKey(rel, recv, name), r.p.Pos(f.Pos()), "the anchor function's parameter list changed; rules written in terms of its parameters cannot be evaluated")
+		return nil
+	}
 	return f
 }
 
@@ -254,6 +258,10 @@ func (r *R) guardedCalls(rule string, fn *ssa.Function, deep bool, callee string
 // argIs checks that the i-th source-level argument of the call has the
 // expected descriptor.
 func (r *R) argIs(rule string, site ssa.CallInstruction, i int, want string, what string) bool {
+	if sc := site.Common().StaticCallee(); sc != nil && core.SignatureChanged(core.Unwrap(sc)) {
+		r.c.Stuck(rule, r.siteKey(site)+fmt.Sprintf("/arg%d", i), r.p.InstrPos(site), "the callee's parameter list changed; the argument position the rule refers to no longer means the same")
+		return false
+	}
 	v := core.Arg(site.Common(), i)
 	got := "<missing>"
 	if v != nil {
@@ -360,6 +368,10 @@ func (r *R) one(rule string, fn *ssa.Function, callee string) ssa.CallInstructio
 	ss := r.sites(fn, false, callee)
 	if len(ss) != 1 {
 		r.c.Stuck(rule, "anchor:"+core.ShortFn(fn)+"→"+callee, r.p.Pos(fn.Pos()), fmt.Sprintf("expected exactly one call to %s in %s, found %d", callee, core.ShortFn(fn), len(ss)))
+		return nil
+	}
+	if sc := ss[0].Common().StaticCallee(); sc != nil && core.SignatureChanged(core.Unwrap(sc)) {
+		r.c.Stuck(rule, "anchor-signature:"+core.ShortFn(fn)+"→"+callee, r.p.InstrPos(ss[0]), "the parameters or results of "+callee+" changed; rules written in terms of them cannot be evaluated")
 		return nil
 	}
 	return ss[0]
